@@ -69,7 +69,7 @@ Decoded fields (Box.fields), all integers unless noted:
                   sample_rate) are walked into (avcC, esds, sinf ... as children)
   stts/stsc/stsz/stco/dref/elst   entry_count (stsz: sample_size, sample_count)
 
-IV size of senc/piff: explicit `iv_size=` argument, else flags&1 override, else
+IV size of senc/piff: flags&1 override in the box itself, else the explicit `iv_size=` argument, else
 the `tenc` seen earlier in the same `walk` call (init segment in front), else
 inferred from the peer `saiz` sizes / the box length (8 and 16 are tried; exactly
 one must fit).
@@ -508,7 +508,7 @@ def _finish_senc(ctx, box, saiz: Optional[Box]):
         sf = saiz.fields
         if sf["sample_count"] == n:
             sizes = sf["sample_info_sizes"] or [sf["default_sample_info_size"]] * n
-    cands = [ctx.iv_size or iv_override or ctx.tenc_iv_size]
+    cands = [iv_override or ctx.iv_size or ctx.tenc_iv_size]   # an in-box override (flags&1) wins
     if cands[0] is None:
         cands = [8, 16]
     if n == 0:
